@@ -128,10 +128,13 @@ package node
 //@ interface FieldPostConstraint.CheckFieldPostConstraints(r FieldRequest, hnd *ValueHandle) (bool, error)
 //@   assigns hnd.Val
 
+// fieldPreChecks counts how often the field pre-constraints were consulted (once per read and once per write of a leaf)
+//@ ghost var fieldPreChecks int
 //@ func (self *Constraints) CheckFieldPreConstraints(r *FieldRequest, hnd *ValueHandle) (bool, error)
 //@   trusted
-//@   assigns *r, hnd.Val, self.compiled
+//@   assigns *r, hnd.Val, self.compiled, fieldPreChecks
 //@   ensures r.Write == old(r.Write) && r.Meta == old(r.Meta)
+//@   ensures fieldPreChecks == old(fieldPreChecks) + 1
 // fieldPostChecks counts how often the field post-constraints (with-defaults, ...) were consulted
 //@ ghost var fieldPostChecks int
 //@ func (self *Constraints) CheckFieldPostConstraints(r FieldRequest, hnd *ValueHandle) (bool, error)
@@ -144,11 +147,12 @@ package node
 //@   mode int
 //@   property C05 C12
 //@   requires sel != nil && sel.Constraints != nil && sel.Node != nil && r != nil && hnd != nil
-//@   assigns open, failed, nodeWrites, writesAfterFail, fieldWrites, fieldPostChecks, nonNavChecks, sel.Constraints.compiled, *r, hnd.Val
+//@   assigns open, failed, nodeWrites, writesAfterFail, fieldWrites, fieldPostChecks, fieldPreChecks, nonNavChecks, sel.Constraints.compiled, *r, hnd.Val
 //@   check (!proceed || constraintErr != nil) ==> fieldWrites == old(fieldWrites) && result == constraintErr
 //@   check proceed && constraintErr == nil ==> fieldWrites == old(fieldWrites) + 1
 //@   ensures stepOK(result)
 //@   ensures nodeWrites <= old(nodeWrites) + 1
+//@   ensures fieldPreChecks == old(fieldPreChecks) + 1
 
 // ---- C07: query parameters ---------------------------------------------------------------------------
 
@@ -382,11 +386,12 @@ package node
 //@   mode int
 //@   property C04 C07 C12
 //@   requires sel != nil && sel.Constraints != nil && sel.Node != nil && r != nil && hnd != nil && r.Meta != nil && !r.Write
-//@   assigns open, failed, nodeWrites, writesAfterFail, fieldWrites, fieldPostChecks, nonNavChecks, sel.Constraints.compiled, *r, hnd.Val
+//@   assigns open, failed, nodeWrites, writesAfterFail, fieldWrites, fieldPostChecks, fieldPreChecks, nonNavChecks, sel.Constraints.compiled, *r, hnd.Val
 //@   check (!proceed || constraintErr != nil) ==> result == constraintErr && fieldPostChecks == old(fieldPostChecks) && fieldWrites == old(fieldWrites)
 //@   check result == nil && proceed && constraintErr == nil ==> fieldPostChecks == old(fieldPostChecks) + 1
 //@   callsite NewValue: hnd.Val == nil && useDefault
 //@   ensures fieldWrites == old(fieldWrites) && nodeWrites == old(nodeWrites)
+//@   ensures fieldPreChecks == old(fieldPreChecks) + 1
 //@   ensures stepOK(result) && writesAfterFail == old(writesAfterFail)
 
 // ---- C13/C08: request paths ---------------------------------------------------------------------------------
@@ -627,7 +632,7 @@ package node
 //@   requires wfS(sel) && wfSelChain(sel) && sel.parent != nil && sel.parent.Node != nil && !failed
 //@   requires sel.InsideList ==> dyn(sel.Path.Meta) == *meta.List
 //@   requires !sel.InsideList ==> dyn(sel.Path.Meta) == meta.HasDataDefinitions
-//@   assigns open, failed, nodeWrites, writesAfterFail, fieldWrites, fieldPostChecks, nonNavChecks
+//@   assigns open, failed, nodeWrites, writesAfterFail, fieldWrites, fieldPostChecks, fieldPreChecks, nonNavChecks
 //@   ensures open == old(open)
 //@   ensures failed ==> err != nil
 //@   ensures writesAfterFail == old(writesAfterFail)
@@ -638,7 +643,7 @@ package node
 //@   mode int
 //@   property C09 C12
 //@   requires wfS(sel) && m != nil
-//@   assigns open, failed, nodeWrites, writesAfterFail, fieldWrites, fieldPostChecks, nonNavChecks, sel.Constraints.compiled
+//@   assigns open, failed, nodeWrites, writesAfterFail, fieldWrites, fieldPostChecks, fieldPreChecks, nonNavChecks, sel.Constraints.compiled
 //@   ensures stepOK(result) && nodeWrites <= old(nodeWrites) + 1
 
 // ---- the editor ----------------------------------------------------------------------------------------------
@@ -650,7 +655,8 @@ package node
 //@   property C12 C03 C04
 //@   requires editPre(from, to) && m != nil
 //@   check [defaultsOnlyWhenNew] useDefault == ((strategy != editUpdate && new) || e.useDefault)
-//@   assigns open, failed, nodeWrites, writesAfterFail, fieldWrites, fieldPostChecks, nonNavChecks, caseClears, from.Constraints.compiled, to.Constraints.compiled
+//@   check [valueIsWritten] result == nil && hnd.Val != nil ==> fieldPreChecks >= old(fieldPreChecks) + 2
+//@   assigns open, failed, nodeWrites, writesAfterFail, fieldWrites, fieldPostChecks, fieldPreChecks, nonNavChecks, caseClears, from.Constraints.compiled, to.Constraints.compiled
 //@   ensures stepOK(result)
 
 //@ pure parentOf(m meta.Meta) meta.Meta
@@ -663,10 +669,10 @@ package node
 //@   property C09 C12
 //@   requires wfS(existing) && solid(want) && !failed
 //@   maypanic
-//@   assigns open, failed, nodeWrites, writesAfterFail, fieldWrites, fieldPostChecks, nonNavChecks, caseClears, existing.Constraints.compiled
+//@   assigns open, failed, nodeWrites, writesAfterFail, fieldWrites, fieldPostChecks, fieldPreChecks, nonNavChecks, caseClears, existing.Constraints.compiled
 //@   check [outsideChoiceUntouched] !valid ==> caseClears == old(caseClears) && nodeWrites == old(nodeWrites)
 //@   check [clearsWhenCaseDiffers] valid && result == nil && caseClears == old(caseClears) ==> nodeWrites == old(nodeWrites)
-//@   ensures caseClears <= old(caseClears) + 1 && nodeWrites >= old(nodeWrites)
+//@   ensures caseClears <= old(caseClears) + 1 && nodeWrites >= old(nodeWrites) && fieldPreChecks >= old(fieldPreChecks)
 //@   ensures open == old(open) && (!old(failed) ==> writesAfterFail == old(writesAfterFail))
 //@   ensures [surface] (failed && !old(failed)) ==> result != nil
 
@@ -674,7 +680,7 @@ package node
 //@   mode int
 //@   property C12 C03 C04
 //@   requires editPre(from, to) && wfSel(to) && (bubble ==> wfSelChain(to))
-//@   assigns open, failed, nodeWrites, writesAfterFail, fieldWrites, fieldPostChecks, nonNavChecks, caseClears, from.Constraints.compiled, to.Constraints.compiled
+//@   assigns open, failed, nodeWrites, writesAfterFail, fieldWrites, fieldPostChecks, fieldPreChecks, nonNavChecks, caseClears, from.Constraints.compiled, to.Constraints.compiled
 //@   loop 1 invariant open == old(open) + chain(to, bubble) && !failed && writesAfterFail == old(writesAfterFail) && ml != nil
 //@   loop 1 invariant nodeWrites >= old(nodeWrites) && (m != nil ==> dataDef(m))
 //@   ensures stepOK(err)
@@ -683,7 +689,7 @@ package node
 //@   mode int
 //@   property C12
 //@   requires editPre(from, to) && wfSel(to) && wfSelChain(to)
-//@   assigns open, failed, nodeWrites, writesAfterFail, fieldWrites, fieldPostChecks, nonNavChecks, caseClears, from.Constraints.compiled, to.Constraints.compiled
+//@   assigns open, failed, nodeWrites, writesAfterFail, fieldWrites, fieldPostChecks, fieldPreChecks, nonNavChecks, caseClears, from.Constraints.compiled, to.Constraints.compiled
 //@   ensures stepOK(err)
 
 //@ func (e editor) node(from *Selection, to *Selection, m meta.HasDataDefinitions, new bool, strategy editStrategy) error
@@ -694,14 +700,14 @@ package node
 //@   check [updateNeverCreates] strategy == editUpdate ==> !newChild
 //@   check [createIssuesNew] newChild && toChild != nil ==> nodeWrites >= old(nodeWrites) + 1
 //@   callsite enter: arg2 == newChild && arg3 == strategy && !arg4 && !arg5
-//@   assigns open, failed, nodeWrites, writesAfterFail, fieldWrites, fieldPostChecks, nonNavChecks, caseClears, from.Constraints.compiled, to.Constraints.compiled
+//@   assigns open, failed, nodeWrites, writesAfterFail, fieldWrites, fieldPostChecks, fieldPreChecks, nonNavChecks, caseClears, from.Constraints.compiled, to.Constraints.compiled
 //@   ensures stepOK(result)
 
 //@ func (e editor) list(from *Selection, to *Selection, m *meta.List, new bool, strategy editStrategy) error
 //@   mode int
 //@   property C12 C03 C04
 //@   requires editPre(from, to) && m != nil && from.Path != nil
-//@   assigns open, failed, nodeWrites, writesAfterFail, fieldWrites, fieldPostChecks, nonNavChecks, caseClears, from.Constraints.compiled, to.Constraints.compiled
+//@   assigns open, failed, nodeWrites, writesAfterFail, fieldWrites, fieldPostChecks, fieldPreChecks, nonNavChecks, caseClears, from.Constraints.compiled, to.Constraints.compiled
 //@   loop 1 invariant open == old(open) && !failed && writesAfterFail == old(writesAfterFail) && nodeWrites >= old(nodeWrites)
 //@   loop 1 invariant fromChild != nil ==> wfS(fromChild) && solid(fromChild.Path.Meta) && fromChild.Constraints == from.Constraints
 //@   loop 1 invariant fromRequest != nil && fromRequest.Selection == from && !fromRequest.New && !fromRequest.Delete
@@ -714,8 +720,8 @@ package node
 // it works on fresh copies of the selection chain, which the entry-heap specification functions cannot follow
 //@ func (e editor) clearChoiceCase(sel *Selection, c *meta.ChoiceCase) error
 //@   trusted
-//@   assigns open, failed, nodeWrites, writesAfterFail, fieldWrites, fieldPostChecks, nonNavChecks, caseClears, sel.Constraints.compiled
-//@   ensures caseClears == old(caseClears) + 1 && nodeWrites >= old(nodeWrites)
+//@   assigns open, failed, nodeWrites, writesAfterFail, fieldWrites, fieldPostChecks, fieldPreChecks, nonNavChecks, caseClears, sel.Constraints.compiled
+//@   ensures caseClears == old(caseClears) + 1 && nodeWrites >= old(nodeWrites) && fieldPreChecks >= old(fieldPreChecks)
 //@   ensures open == old(open) && ((failed && !old(failed)) ==> result != nil) && (!old(failed) ==> writesAfterFail == old(writesAfterFail))
 
 // ---- C08: Find is pure navigation ---------------------------------------------------------------------------
@@ -743,7 +749,7 @@ package node
 //@ ghost var insertStarts int
 //@ func (sel *Selection) InsertFrom(fromNode Node) error
 //@   trusted
-//@   assigns open, failed, nodeWrites, writesAfterFail, fieldWrites, fieldPostChecks, nonNavChecks, insertStarts, sel.Constraints.compiled
+//@   assigns open, failed, nodeWrites, writesAfterFail, fieldWrites, fieldPostChecks, fieldPreChecks, nonNavChecks, insertStarts, sel.Constraints.compiled
 //@   ensures insertStarts == old(insertStarts) + 1 && open == old(open) && nodeWrites >= old(nodeWrites)
 //@ func (sel *Selection) ReplaceFrom(fromNode Node) error
 //@   mode int
@@ -788,7 +794,7 @@ package node
 //@   mode int
 //@   property C08 C13
 //@   requires wfSChain(sel) && sel != nil && !failed && solid(sel.Path.Meta)
-//@   assigns open, failed, nodeWrites, writesAfterFail, fieldWrites, fieldPostChecks, nonNavChecks, Constraints.compiled
+//@   assigns open, failed, nodeWrites, writesAfterFail, fieldWrites, fieldPostChecks, fieldPreChecks, nonNavChecks, Constraints.compiled
 //@   loop 1 invariant len(p) <= len(path) && (len(path) - len(p)) % 3 == 0 && p === path[len(path)-len(p):]
 //@   loop 1 invariant s != nil && s == ancN(sel, (len(path) - len(p)) / 3) && wfSChain(s)
 //@   loop 1 decreases len(p)
@@ -799,7 +805,7 @@ package node
 //@   ensures result0 != nil ==> result1 == nil && wfS(result0)
 //@ func (sel *Selection) Get() (val.Value, error)
 //@   trusted
-//@   assigns open, failed, nodeWrites, writesAfterFail, fieldWrites, fieldPostChecks, nonNavChecks, sel.Constraints.compiled
+//@   assigns open, failed, nodeWrites, writesAfterFail, fieldWrites, fieldPostChecks, fieldPreChecks, nonNavChecks, sel.Constraints.compiled
 //@   ensures nodeWrites == old(nodeWrites) && open == old(open)
 
 //@ pure typeOfDef(m meta.HasType) *meta.Type
@@ -835,7 +841,7 @@ package node
 //@ pure exprHolds(s *Selection, expr string) bool
 //@ func (sel *Selection) XPredicate(p *xpath.Path) (bool, error)
 //@   trusted
-//@   assigns open, failed, nodeWrites, writesAfterFail, fieldWrites, fieldPostChecks, nonNavChecks
+//@   assigns open, failed, nodeWrites, writesAfterFail, fieldWrites, fieldPostChecks, fieldPreChecks, nonNavChecks
 //@   ensures nodeWrites == old(nodeWrites) && open == old(open)
 //@   ensures result1 == nil ==> result0 == xpredHolds(sel, p)
 //@   ensures result1 == nil ==> result0 == exprHolds(sel, exprOf(p))
@@ -857,7 +863,7 @@ package node
 //@   mode int
 //@   property C16
 //@   requires true
-//@   assigns open, failed, nodeWrites, writesAfterFail, fieldWrites, fieldPostChecks, nonNavChecks
+//@   assigns open, failed, nodeWrites, writesAfterFail, fieldWrites, fieldPostChecks, fieldPreChecks, nonNavChecks
 //@   ensures s == nil ==> result0 && result1 == nil
 //@   ensures s != nil && (dyn(m) != meta.HasWhen || whenOf(m) == nil) ==> result0 && result1 == nil
 //@   check [whenDecides] s != nil && dyn(m) == meta.HasWhen && whenOf(m) != nil && result1 == nil ==> result0 == xpredHolds(s, xp)
